@@ -16,6 +16,11 @@ from . import strategies as S
 can_field = st.from_regex(r"[a-z][a-z0-9]{0,5}", fullmatch=True).filter(
     lambda x: x not in S.KEYWORDS and x not in S.C_RESERVED and not S.is_tricky(x)
 )
+# long descriptive names as real automotive schemas have them (longer than DBC's 32 and C's 31/63 significant
+# characters once prefixed), with shared prefixes; and "filler"-looking names
+LONG_FIELDS = ["highvoltagebatterycellsminimumvalue", "highvoltagebatterycellsmaximumvalue", "cellvoltagemin",
+               "cellvoltagemax", "cellvoltageavg", "reserved", "rsvd0", "rsvd1", "padding", "unused", "spare"]
+LONG_TYPES = ["BatteryManagementSystemStatus", "BatteryManagementSystemStatusMessageExtended", "Vehiclecontrolunitdiag"]
 can_type = st.from_regex(r"[A-Z][a-z0-9]{1,6}", fullmatch=True).filter(
     lambda x: x not in S.KEYWORDS and x.lower() not in S.C_RESERVED
 )
@@ -45,6 +50,7 @@ class CanCfg:
     periods: bool = False
     max_id: int = 2047
     signed: bool = True
+    long_names: bool = True
     widths: Optional[st.SearchStrategy] = None
 
 
@@ -76,6 +82,10 @@ def can_message_struct(draw, name: str, cfg: CanCfg, s: M.Schema, helper_names: 
     remaining = cfg.budget
     n = draw(st.integers(cfg.min_fields, cfg.max_leaf_fields))
     fnames = draw(S.unique_names(can_field, n, n))
+    if cfg.long_names and draw(st.integers(0, 4)) == 0:
+        extra = draw(st.lists(st.sampled_from(LONG_FIELDS), min_size=1, max_size=min(n, 3), unique=True))
+        fnames = [x for x in extra if x not in fnames] + fnames
+        fnames = fnames[:n]
     ids = draw(S.field_ids(n, 40, True))
     fields: List[M.Field] = []
     helpers: List[M.Decl] = []
@@ -144,6 +154,10 @@ def can_schema(draw, cfg: Optional[CanCfg] = None) -> M.Schema:
         cand = msg_names[i] + draw(st.sampled_from(["Req", "x", "2", "Ext"]))
         if cand not in names and cand not in msg_names:
             msg_names[j] = cand
+    if cfg.long_names and draw(st.integers(0, 5)) == 0:
+        ln = draw(st.sampled_from(LONG_TYPES))
+        if ln not in names and ln not in msg_names:
+            msg_names[draw(st.integers(0, n_m - 1))] = ln
     helper_names = list(names[n_e + n_m:])
     for nm in msg_names:
         for d in draw(can_message_struct(nm, cfg, s, helper_names)):
